@@ -22,6 +22,12 @@ def f3(lit: Literal["x", "y"] = "x", n: int = 3):
     return ("f3", lit, n)
 
 
+def f4(values: int = 1, items: str = "i", keys: Optional[int] = None, *, get: bool = False):
+    """A function whose parameters are named like methods of the result namespace."""
+    CALLS.append(("f4", dict(values=values, items=items, keys=keys, get=get)))
+    return ("f4", values, items, keys, get)
+
+
 class K1:
     """A class with two methods."""
 
@@ -46,6 +52,7 @@ PARAMS = {
     "f1": [("a", REQUIRED, "7", 7), ("b", 0.5, "2.5", 2.5), ("flag", False, "true", True), ("name", "n", "zed", "zed")],
     "f2": [("items", REQUIRED, "[1, 2]", [1, 2]), ("opt", None, "1.5", 1.5)],
     "f3": [("lit", "x", "y", "y"), ("n", 3, "9", 9)],
+    "f4": [("values", 1, "9", 9), ("items", "i", "zed", "zed"), ("keys", None, "5", 5), ("get", False, "true", True)],
     "K1.__init__": [("p", REQUIRED, "4", 4), ("q", 2, "6", 6)],
     "K1.m1": [("r", 1, "8", 8)],
     "K1.m2": [("s", REQUIRED, "word", "word"), ("t", None, "5", 5)],
